@@ -29,7 +29,54 @@ ALL_ACCELS = ["ethos-u55-128", "ethos-u65-256", "ethos-u55-32", "ethos-u55-64", 
 FAF = {"NONE": 0, "RELU": 1, "RELU_N1_TO_1": 2, "RELU6": 3, "TANH": 4, "SIGN_BIT": 5}
 TT = {"int8": "INT8", "uint8": "UINT8", "int16": "INT16", "int32": "INT32", "float32": "FLOAT32", "int64": "INT64"}
 MODULES = ["SupportedOps.tla", "SupportedOpsGen.tla", "SupportedOpsTrace.tla", "SupportedOpsGen.cfg", "SupportedOpsGenDesign.cfg",
-           "SupportedOpsGenPairs.cfg", "SupportedOpsTrace.cfg"]
+           "SupportedOpsGenPairs.cfg", "SupportedOpsTrace.cfg", "SupportedOpsTraceStrict.cfg", "SupportedOpsGenDesignQuick.cfg"]
+ROUND1 = set(sr.COVERED[:12])          # operators of the first round: every case in every quick run
+UNARY = {"ABS", "EXP", "RSQRT", "LEAKY_RELU", "HARD_SWISH", "SOFTMAX", "LOGISTIC", "TANH", "RELU", "RELU6", "RELU_N1_TO_1"}
+BIN2 = {"MINIMUM", "MAXIMUM", "SQUARED_DIFFERENCE"}
+# operators that move data without computing (absorbed into a neighbouring NPU subgraph when accepted)
+MEMORY_ONLY = {"RESHAPE", "SQUEEZE", "EXPAND_DIMS", "CONCATENATION", "SPLIT", "SPLIT_V", "SLICE", "STRIDED_SLICE", "TRANSPOSE"}
+# On the unchanged tree every ARG_MAX that reaches the NPU path dies with OverflowError in
+# convert_argmax_to_depthwise_conv_and_max_pool (NumPy 2; a C13 matter that is being repaired separately).  Until then the
+# ARG_MAX cases the report sends to the NPU are generated and judged by TLC's design invariants but not compiled; the
+# cases that must stay on the CPU are compiled as usual.  Set to True once the repair has landed.
+ARG_MAX_NPU_PATH_CASES = False
+# Further case classes that make the unchanged tree crash (no output model) although the report sends the operator to the
+# NPU.  Each is a genuine defect reported to the lead with a reproduction (harness/repro/c16_round4_findings.py); the class is
+# generated, judged by the design invariants, counted in the evidence, but not compiled while its switch is False.
+CONCAT_FUSED_ACTIVATION_CASES = False     # CONCATENATION with a fused activation: AssertionError in pass_packing.build_pass
+RESIZE_NN_ALIGN_CORNERS_CASES = False     # RESIZE_NEAREST_NEIGHBOR align_corners 2x/4x/8x, depth > 1: ValueError (reshape)
+UNQUANTISED_TRANSPOSE_CASES = False       # TRANSPOSE (exempt from 'must have quantization parameters') without them: AttributeError
+EXP_INT16_WIDE_RANGE = False              # EXP on int16 with scale 0.05 (|x| up to 1638): OverflowError in create_lut_int16_op
+
+
+def switched_off(rec):
+    """name of the switched-off case class the case belongs to, or None"""
+    c = rec["c"]
+    npu = rec["expect"] != "CPU"
+    if c["op"] == "ARG_MAX" and npu and not ARG_MAX_NPU_PATH_CASES:
+        return "ARG_MAX_NPU_PATH_CASES"
+    if c["op"] == "CONCATENATION" and c["faf"] != "NONE" and npu and not CONCAT_FUSED_ACTIVATION_CASES:
+        return "CONCAT_FUSED_ACTIVATION_CASES"
+    if (c["op"] == "RESIZE_NEAREST_NEIGHBOR" and c["align"] and npu and list(c["s1"]) != list(c["so"])
+            and not (c["s1"][1] == 1 and c["s1"][2] == 1) and not RESIZE_NN_ALIGN_CORNERS_CASES):
+        return "RESIZE_NN_ALIGN_CORNERS_CASES"
+    if c["op"] == "TRANSPOSE" and not c["hasq"] and npu and not UNQUANTISED_TRANSPOSE_CASES:
+        return "UNQUANTISED_TRANSPOSE_CASES"
+    return None
+
+
+# c.nopt -> options no bullet of the report mentions: they must not move any operator
+NEUTRAL_OPTIONS = {"": [], "size": ["--optimise", "Size"], "align": ["--cpu-tensor-alignment", "64"],
+                   "alloc": ["--tensor-allocator", "Greedy"], "blockdep": ["--max-block-dependency", "0"],
+                   "debugdb": ["--enable-debug-db"]}
+
+
+def cli_extra(c):
+    """command-line options that are part of the case: the one the report names as changing which constraints apply
+    (c.force) and the set of options it does not mention (c.nopt)"""
+    if c.get("nopt", "") not in NEUTRAL_OPTIONS:
+        raise MachineryError("case with an unknown option set %r" % c.get("nopt"))
+    return (["--force-symmetric-int-weights"] if c.get("force") else []) + NEUTRAL_OPTIONS[c.get("nopt", "")]
 
 
 # ------------------------------------------------------------------------------------------------
@@ -67,20 +114,22 @@ def cases_from_tlc(run, d, pairs):
 def well_formed(rec):
     """A case is buildable only if every size is positive (constants of an odd report can produce others)."""
     c = rec["c"]
-    nums = [c[k] for k in ("b", "h", "w", "c", "kh", "kw", "sh", "sw", "dh", "dw", "oc", "mult", "wic", "bbits")]
+    nums = [c[k] for k in ("b", "h", "w", "c", "kh", "kw", "sh", "sw", "dh", "dw", "oc", "mult", "wic", "bbits", "n")]
     dims = list(c["s1"]) + list(c["s2"]) + list(c["so"]) + list(rec.get("ofm", []))
     if c["op"] in ("CONV_2D", "DEPTHWISE_CONV_2D", "MAX_POOL_2D", "AVERAGE_POOL_2D"):
         dims += [rec["oh"], rec["ow"]]
-    return all(isinstance(x, int) and x >= 1 for x in nums + dims) and all(0 <= a < len(c["s1"]) for a in c["axes"])
+    pads = [v for pr in c["pads"] for v in pr]
+    return (all(isinstance(x, int) and x >= 1 for x in nums + dims) and all(0 <= a < len(c["s1"]) for a in c["axes"])
+            and all(isinstance(v, int) and v >= 0 for v in pads) and all(len(pr) == 2 for pr in c["pads"]))
 
 
-def validate(d, events, timeout=1800):
+def validate(d, events, timeout=1800, cfg="SupportedOpsTrace.cfg"):
     """SupportedOpsTrace in the scratch spec directory (same protocol as tlc.validate_traces)."""
     path = os.path.join(d, "trace.ndjson")
     with open(path, "w") as f:
         for e in events:
             f.write(json.dumps(e, separators=(",", ":")) + "\n")
-    res = tlc.run("SupportedOpsTrace", "SupportedOpsTrace.cfg", workers=1, timeout=timeout, heap="4g", cwd=d,
+    res = tlc.run("SupportedOpsTrace", cfg, workers=1, timeout=timeout, heap="4g", cwd=d,
                   env={"TRACE_FILE": path})
     if not res.ok:
         raise MachineryError("SupportedOpsTrace: TLC status %s\n%s" % (res["status"], res["output"][-4000:]))
@@ -137,6 +186,15 @@ def _weights(n, c, shape, nch, qdim):
     return n.const("w", shape, TT[wt], scale=scale, zp=zp, qdim=qdim if per else None, data=data)
 
 
+def _unary_out_q(op, dt):
+    """customary output quantisation of an activation-like operator (scale, zero point before the uint8 shift of _fm)"""
+    if op in ("SOFTMAX", "LOGISTIC"):
+        return (1 / 256, -128) if dt in ("int8", "uint8") else (1 / 32768, 0)
+    if op == "TANH":
+        return (1 / 128, 0) if dt in ("int8", "uint8") else (1 / 32768, 0)
+    return 0.05, 0
+
+
 def _bias(n, c, nch):
     bt = c["bt"]
     if bt == "none":
@@ -152,15 +210,17 @@ def _bias(n, c, nch):
 
 def build_case(rec, variant):
     """rec = {"c": case record, "oh", "ow", "ofm"} as printed by TLC.  variant: "single" (the operator alone),
-    "sandwich" (third-party CUSTOM operators before and after: CPU-only neighbours) or "npu" (NPU-able
-    element-wise neighbours before and after, so the operator sits inside / next to an NPU region).
-    The operator under test always produces the tensor named 'y'."""
+    "sandwich" (third-party CUSTOM operators before and after: CPU-only neighbours), "npu" (NPU-able
+    element-wise neighbours before and after, so the operator sits inside / next to an NPU region), "npu_pre" /
+    "npu_post" (an NPU-able neighbour on one side only: the operator is the last / first of the network).
+    The operator under test always produces the tensor named 'y' (its first output)."""
     c = rec["c"]
     op = c["op"]
     n = netgen.Net(3)
+    more_outputs = []
 
     def ifm(name, shape, dt, scale=0.05, zp=0, per_axis=False):
-        if variant == "single":
+        if variant in ("single", "npu_post"):
             return _fm(n, name, shape, dt, scale, zp, is_input=True, per_axis=per_axis)
         src = _fm(n, name + "_src", shape, dt, scale, zp, is_input=True, per_axis=per_axis)
         t = _fm(n, name, shape, dt, scale, zp, per_axis=per_axis)
@@ -169,6 +229,12 @@ def build_case(rec, variant):
         else:
             n.op("ADD", [src, src], [t], ["AddOptions", {"FusedActivationFunction": 0}])
         return t
+
+    def param(name, shape, values, dt="INT32"):
+        """parameter tensor of a data-movement operator: constant, or (c.pconst false) an input of the network"""
+        if c["pconst"]:
+            return n.const(name, shape, dt, data=list(values))
+        return n.fm(name, shape, dt, None, is_input=True)
 
     if op in ("CONV_2D", "DEPTHWISE_CONV_2D", "MAX_POOL_2D", "AVERAGE_POOL_2D"):
         x = ifm("x", [c["b"], c["h"], c["w"], c["c"]], c["dt"])
@@ -229,32 +295,131 @@ def build_case(rec, variant):
         ax = n.const("axes", [len(c["axes"])], "INT32", data=list(c["axes"]))
         y = _fm(n, "y", rec["ofm"], c["odt"], 0.05, 0, quant=c["hasq"])
         n.op(op, [x, ax], [y], ["ReducerOptions", {"KeepDims": bool(c["keep"])}])
+    elif op in UNARY:
+        narrow = op == "EXP" and c["dt"] == "int16" and not EXP_INT16_WIDE_RANGE
+        x = ifm("x", c["s1"], c["dt"], scale=1 / 2048 if narrow else 0.05)
+        osc, ozp = _unary_out_q(op, c["odt"])
+        y = _fm(n, "y", c["so"], c["odt"], osc, ozp, quant=c["hasq"])
+        opts = None
+        if op == "LEAKY_RELU":
+            opts = ["LeakyReluOptions", {"Alpha": {"small": 0.1, "one": 1.0, "big": 1.5, "neg": -0.5}[c["alpha"]]}]
+        elif op == "SOFTMAX":
+            opts = ["SoftmaxOptions", {"Beta": {"pos": 1.0, "zero": 0.0, "neg": -1.0}[c["beta"]]}]
+        n.op(op, [x], [y], opts)
+    elif op in BIN2:
+        x = ifm("x", c["s1"], c["dt"])
+        x2 = _fm(n, "x2", c["s2"], c["dt2"], 0.05 if c["qmatch"] else 0.03, 0 if c["qmatch"] else 2, is_input=True)
+        same = op in ("MINIMUM", "MAXIMUM")
+        y = _fm(n, "y", c["so"], c["odt"], 0.05 if same else 0.1, 0 if same else -1, quant=c["hasq"])
+        n.op(op, [x, x2], [y])
+    elif op == "CONCATENATION":
+        x = ifm("x", c["s1"], c["dt"])
+        x2 = _fm(n, "x2", c["s2"], c["dt2"], 0.05 if c["qmatch"] else 0.03, 0 if c["qmatch"] else 2, is_input=True)
+        y = _fm(n, "y", c["so"], c["odt"], 0.05, 0, quant=c["hasq"])
+        n.op(op, [x, x2], [y], ["ConcatenationOptions", {"Axis": c["ax"], "FusedActivationFunction": FAF[c["faf"]]}])
+    elif op == "SPLIT":
+        x = ifm("x", c["s1"], c["dt"])
+        ax = n.const("axis", [], "INT32", data=[c["ax"]])
+        outs = [_fm(n, "y" if k == 0 else "y_%d" % k, c["so"], c["odt"], 0.05, 0, quant=c["hasq"]) for k in range(c["n"])]
+        n.op(op, [ax, x], outs, ["SplitOptions", {"NumSplits": c["n"]}])
+        y, more_outputs = outs[0], outs[1:]
+    elif op == "SPLIT_V":
+        x = ifm("x", c["s1"], c["dt"])
+        a = c["ax"] % len(c["s1"])
+        d = c["s1"][a]
+        known = sum(v for v in c["sizes"] if v >= 0)
+        ninf = max(1, sum(1 for v in c["sizes"] if v < 0))
+        szs = [v if v >= 0 else max(1, (d - known) // ninf) for v in c["sizes"]]
+        if [szs[0] if k == a else v for k, v in enumerate(c["s1"])] != list(c["so"]):
+            raise MachineryError("SPLIT_V case: first output %s differs from the case's so %s" % (szs, c["so"]))
+        st = n.const("sizes", [len(szs)], "INT32", data=list(c["sizes"]))
+        ax = n.const("axis", [], "INT32", data=[c["ax"]])
+        outs = [_fm(n, "y" if k == 0 else "y_%d" % k, [v if j != a else sz for j, v in enumerate(c["s1"])], c["odt"], 0.05, 0,
+                    quant=c["hasq"]) for k, sz in enumerate(szs)]
+        n.op(op, [x, st, ax], outs, ["SplitVOptions", {"NumSplits": len(szs)}])
+        y, more_outputs = outs[0], outs[1:]
+    elif op == "SLICE":
+        x = ifm("x", c["s1"], c["dt"])
+        b_ = param("begin", [len(c["beg"])], c["beg"])
+        sz = param("size", [len(c["sizes"])], c["sizes"])
+        y = _fm(n, "y", c["so"], c["odt"], 0.05, 0, quant=c["hasq"])
+        n.op(op, [x, b_, sz], [y], ["SliceOptions", {}])
+    elif op == "STRIDED_SLICE":
+        x = ifm("x", c["s1"], c["dt"])
+        ins = [x, param("begin", [len(c["beg"])], c["beg"]), param("end", [len(c["end"])], c["end"]),
+               param("strides", [len(c["strd"])], c["strd"])]
+        y = _fm(n, "y", c["so"], c["odt"], 0.05, 0, quant=c["hasq"])
+        n.op(op, ins, [y], ["StridedSliceOptions", {"BeginMask": c["bmask"], "EndMask": c["emask"], "EllipsisMask": c["ell"],
+                                                     "NewAxisMask": c["newax"], "ShrinkAxisMask": c["shrink"],
+                                                     "Offset": bool(c["offs"])}])
+    elif op == "TRANSPOSE":
+        x = ifm("x", c["s1"], c["dt"])
+        p = param("perm", [len(c["perm"])], c["perm"])
+        y = _fm(n, "y", c["so"], c["odt"], 0.05, 0, quant=c["hasq"])
+        n.op(op, [x, p], [y], ["TransposeOptions", {}])
+    elif op == "PAD":
+        x = ifm("x", c["s1"], c["dt"])
+        p = param("paddings", [len(c["pads"]), 2], [v for pr in c["pads"] for v in pr], TT[c["pdt"]])
+        y = _fm(n, "y", c["so"], c["odt"], 0.05, 0, quant=c["hasq"])
+        n.op(op, [x, p], [y], ["PadOptions", {}])
+    elif op in ("RESIZE_BILINEAR", "RESIZE_NEAREST_NEIGHBOR"):
+        x = ifm("x", c["s1"], c["dt"])
+        size = [c["so"][1], c["so"][2]] if c["szmatch"] else [c["so"][1] + 1, c["so"][2]]
+        sz = n.const("size", [2], "INT32", data=size)
+        y = _fm(n, "y", c["so"], c["odt"], 0.05, 0, quant=c["hasq"])
+        n.op(op, [x, sz], [y], ["ResizeBilinearOptions" if op == "RESIZE_BILINEAR" else "ResizeNearestNeighborOptions",
+                                {"AlignCorners": bool(c["align"]), "HalfPixelCenters": bool(c["half"])}])
+    elif op == "TRANSPOSE_CONV":
+        x = ifm("x", [c["b"], c["h"], c["w"], c["c"]], c["dt"])
+        osz = n.const("output_shape", [4], "INT32", data=list(rec["ofm"]))
+        w = _weights(n, c, [c["oc"], c["kh"], c["kw"], c["c"]], c["oc"], 0)
+        b = _bias(n, c, c["oc"])
+        y = _fm(n, "y", rec["ofm"], c["odt"], 0.07, -5, quant=c["hasq"])
+        n.op(op, [osz, w, x] + ([b] if b is not None else []), [y],
+             ["TransposeConvOptions", {"Padding": 0 if c["pad"] == "SAME" else 1, "StrideW": c["sw"], "StrideH": c["sh"],
+                                       "FusedActivationFunction": FAF[c["faf"]]}])
+    elif op == "ARG_MAX":
+        x = ifm("x", c["s1"], c["dt"])
+        ax = n.const("axis", [], "INT32", data=[c["ax"]])
+        y = _fm(n, "y", rec["ofm"], c["odt"], None, 0, quant=False)
+        n.op(op, [x, ax], [y], ["ArgMaxOptions", {"OutputType": getattr(netgen.TT, TT[c["odt"]])}])
     else:
         raise MachineryError("no builder for " + op)
-    if variant != "single":
-        z = _fm(n, "z", n.t[y]["shape"], c["odt"], 0.07, -5, quant=c["hasq"])
+    if variant not in ("single", "npu_pre"):
+        z = _fm(n, "z", n.t[y]["shape"], c["odt"], 0.07, -5, quant=c["hasq"] and op != "ARG_MAX")
         if variant == "sandwich":
             n.op("CUSTOM", [y], [z], custom_code="CpuOnlyAfter", custom_options=[2])
         else:
             n.op("ADD", [y, y], [z], ["AddOptions", {"FusedActivationFunction": 0}])
-        return n.desc([z])
-    return n.desc([y])
+        return n.desc([z] + more_outputs)
+    return n.desc([y] + more_outputs)
 
 
 # ------------------------------------------------------------------------------------------------
 # observation
 # ------------------------------------------------------------------------------------------------
+def _tensor_sigs(g):
+    return {t["name"]: "%s|%s|%s|%s" % (",".join(map(str, t["shape"])), t["type"], t["quant"], t["data"] if t["const"] else "")
+            for t in g["subgraphs"][0]["tensors"]}
+
+
 def observe(op, in_bytes, out_bytes):
-    """Where did the operator producing 'y' go?  "CPU": still an operator of the output model (+ whether verbatim);
-    "NPU": gone, and explained by an ethos-u operator (same inference as C11's absorbed claim);
-    "LOST": neither."""
-    S = tla_graph(flatmodel.abstract(in_bytes))
-    O = tla_graph(flatmodel.abstract(out_bytes))
+    """Where did the operator producing 'y' go?  "CPU": still an operator of the output model (+ whether verbatim: same
+    version, options, operands, constant data, and the same shape / type / quantisation of every operand and result
+    tensor); "NPU": gone, and explained by an ethos-u operator (same inference as C11's absorbed claim: a memory-only
+    operator swallowed by a neighbouring NPU subgraph vanishes from the operator list and is reached from the ethos-u
+    operator's outputs); "LOST": neither."""
+    gs, go = flatmodel.abstract(in_bytes), flatmodel.abstract(out_bytes)
+    S = tla_graph(gs)
+    O = tla_graph(go)
     idx = next(i for i, o in enumerate(S["ops"], 1) if o["outs"] and o["outs"][0] == "y")
     src = S["ops"][idx - 1]
     kept = [o for o in O["ops"] if o["code"] == src["code"] and o["outs"] == src["outs"]]
     if kept:
         diff = [f for f in ("ver", "opts", "copt", "ins", "cdat") if kept[0][f] != src[f]]
+        ts, to = _tensor_sigs(gs), _tensor_sigs(go)
+        if any(ts.get(t) != to.get(t) for t in list(src["ins"]) + list(src["outs"]) if t):
+            diff.append("tensors")
         return "CPU", not diff and len(kept) == 1, diff
     if any(idx in a for a in infer_absorbed(S, O)):
         return "NPU", True, []
@@ -344,19 +509,18 @@ def check_lists(run, parsed):
 
 
 # ------------------------------------------------------------------------------------------------
-def run_cases(run, d, recs, variants, accels):
+def run_cases(run, d, plan):
+    """plan: [(case as printed by TLC, variant, accelerator)]; the command-line options of a case are part of the case."""
     jobs, meta = [], []
-    for i, rec in enumerate(recs):
-        for v in variants:
-            for a in accels(i):
-                try:
-                    net = build_case(rec, v)
-                except MachineryError:
-                    raise
-                except Exception as e:
-                    raise MachineryError("cannot build case %s: %r" % (rec["c"], e))
-                jobs.append({"id": len(jobs), "net": net, "opts": {"accel": a}})
-                meta.append({"rec": rec, "variant": v, "accel": a})
+    for rec, v, a in plan:
+        try:
+            net = build_case(rec, v)
+        except MachineryError:
+            raise
+        except Exception as e:
+            raise MachineryError("cannot build case %s: %r" % (rec["c"], e))
+        jobs.append({"id": len(jobs), "net": net, "opts": {"accel": a, "extra": cli_extra(rec["c"])}})
+        meta.append({"rec": rec, "variant": v, "accel": a})
     results = vela_run.compile_many(jobs, timeout=900)
     events, failed = [], {}
     for job, m, r in zip(jobs, meta, results):
@@ -391,19 +555,29 @@ def report_violations(run, viol, meta, jobs):
         elif kind == "OperatorLost":
             key = "OperatorLost|%s" % c["op"]
             what = "%s is neither preserved in the output model nor explained by an ethos-u operator" % c["op"]
+        elif kind == "UndecidedButFails":
+            key = "UndecidedButFails|%s|%s|%s" % (c["op"], "+".join(sorted(failing)), m["reason"])
+            what = ("the report's wording leaves %s undecided for this %s, but either reading promises an output model and "
+                    "the compilation fails: %s" % (sorted(failing), c["op"], m["reason"]))
         elif kind == "SatisfiesButFails":
             key = "SatisfiesButFails|%s|%s" % (c["op"], m["reason"])
             what = "%s satisfies every listed constraint but the compilation fails: %s" % (c["op"], m["reason"])
         else:
             key = "CpuNotUnchanged|%s|%s" % (c["op"], ",".join(m.get("diff", [])))
             what = "%s stays on the CPU but is rewritten (%s)" % (c["op"], m.get("diff"))
-        run.violation(key, "%s [axis %s%s, %s, %s] case=%s" % (
+        run.violation(key, "%s [axis %s%s, %s, %s%s] case=%s" % (
             what, c["axis"], "+" + c["axis2"] if c["axis2"] else "", m["variant"], m["accel"],
+            "".join(" " + o for o in cli_extra(c)),
             json.dumps({k: v for k, v in c.items() if v not in ("", [], None)}, sort_keys=True)[:600]),
             {"net": j["net"], "opts": j["opts"], "case": m["rec"], "variant": m["variant"]})
 
 
 GOLDEN_DIR = os.path.join(os.path.dirname(os.path.dirname(os.path.abspath(__file__))), "golden")
+
+
+GOLDEN_AXES_ROUND1 = ("nominal", "kernel_h", "stride_h", "stride_w", "dim_h", "dim_w", "batch", "dtype", "mean_axes", "mean_width",
+                      "quant_differs", "weights_zero_point", "weights_zero_point_forced", "per_axis_weights_zero_point",
+                      "force_option", "neutral_option")
 
 
 def regen_golden():
@@ -418,9 +592,10 @@ def regen_golden():
         d, *_ = prepare_spec(run, md)
         cases = cases_from_tlc(run, d, False)
         keep = [c for c in cases if c["expect"] in ("NPU", "CPU") and
-                c["c"]["axis"] in ("nominal", "kernel_h", "stride_h", "stride_w", "dim_h", "dim_w", "batch", "dtype",
-                                   "mean_axes", "mean_width", "quant_differs")]
-        ev = [{"t": k, "c": c["c"], "observed": c["expect"], "unchanged": True} for k, c in enumerate(keep)]
+                (c["c"]["op"] not in ROUND1 or c["c"]["axis"] in GOLDEN_AXES_ROUND1)]
+        keep += [c for c in cases if c["expect"] == "ANY" and c["c"]["axis"] == "bias_bits"]
+        ev = [{"t": k, "c": c["c"], "observed": c["expect"] if c["expect"] != "ANY" else "FAIL", "unchanged": True}
+              for k, c in enumerate(keep)]
         with open(os.path.join(GOLDEN_DIR, "c16_events.json"), "w") as f:
             json.dump({"_comment": "synthetic placements that agree with SUPPORTED_OPS.golden.md (observed := Expect); base of "
                                    "C16's negative controls, independent of the tree under test", "events": ev}, f)
@@ -429,7 +604,7 @@ def regen_golden():
         run.cleanup()
 
 
-def negative_controls(run):
+def negative_controls(run, tier="thorough"):
     """Frozen inputs only (harness/golden): a report generated by the unchanged tree and placements that agree with it.
     (i) the golden placements are accepted; (ii) every flipped placement is rejected; (iii) a report whose range
     constants are off by one makes golden placements inconsistent.  Nothing depends on the tree under test."""
@@ -439,62 +614,142 @@ def negative_controls(run):
     with open(os.path.join(GOLDEN_DIR, "c16_events.json")) as f:
         good = json.load(f)["events"]
     d, *_ = prepare_spec(run, md)
-    des = tlc.run("SupportedOpsGen", "SupportedOpsGenDesign.cfg", workers=1, timeout=900, cwd=d)
+    # design-level invariants over the whole case set (quick: single cases; thorough: also the pairs)
+    des = tlc.run("SupportedOpsGen", "SupportedOpsGenDesign.cfg" if tier != "quick" else "SupportedOpsGenDesignQuick.cfg", workers=1,
+                  timeout=900, cwd=d)
     if not des.ok:
         raise MachineryError("design-level invariants of SupportedOpsGen fail on the golden report: %s %s\n%s" % (
             des["status"], des.get("violated"), des["output"][-1500:]))
     run.add_mc("SupportedOpsGen(design invariants, golden report)", des)
-    _, v0 = validate(d, good)
-    if v0:
-        raise MachineryError("negative control: golden placements rejected under the golden report (%s)" % v0[:3])
+    decided = [e for e in good if e["observed"] in ("NPU", "CPU")]
+    undecided_fail = [e for e in good if e["observed"] == "FAIL"]
     flipped = []
-    for e in good:
-        if e["c"]["axis"] == "nominal":
+    for e in decided:
+        if e["c"]["axis"] in ("nominal", "neutral_option"):
             f = copy.deepcopy(e)
             f["observed"] = "CPU" if e["observed"] == "NPU" else "NPU"
-            f["t"] = len(flipped)
+            f["t"] = len(good) + len(flipped)
             flipped.append(f)
-    lost = dict(copy.deepcopy(good[0]), observed="LOST", t=len(flipped))
-    _, v = validate(d, flipped + [lost])
-    if len({x[0] for x in v}) != len(flipped) + 1 or not flipped:
-        raise MachineryError("negative control: flipped placements not rejected (%s)" % v)
+    ops_flipped = {f["c"]["op"] for f in flipped}
+    if not set(sr.COVERED) <= ops_flipped:
+        raise MachineryError("negative control: no nominal golden placement for %s" % sorted(set(sr.COVERED) - ops_flipped))
+    # one batch: the golden placements themselves (no verdict expected, failed undecided cases included) followed by
+    # corrupted copies (exactly the named verdict expected for each)
+    if [e["t"] for e in good] != list(range(len(good))):
+        raise MachineryError("golden events are not numbered consecutively")
+    corrupted = list(good) + list(flipped)
+    want = {(f["t"], "SatisfiesButCpu" if f["observed"] == "CPU" else "ViolatesButNpu") for f in flipped}
 
-    def shift(K, listed):
+    def add(e, kind, **changes):
+        f = dict(copy.deepcopy(e), t=len(corrupted), **changes)
+        corrupted.append(f)
+        if kind:
+            want.add((f["t"], kind))
+        return f
+    add(decided[0], "OperatorLost", observed="LOST")
+    # ---- the command-line option is part of the case: a record that lies about it is rejected in both directions
+    lied = []
+    for e in decided:
+        c = e["c"]
+        if c["axis"] in ("weights_zero_point", "weights_zero_point_forced") and c["wzp"] != 0 and c["dt"] in ("int8", "int16"):
+            # observed stays what the compiler did under the other setting
+            f = add(e, "ViolatesButNpu" if e["observed"] == "NPU" else "SatisfiesButCpu")
+            f["c"]["force"] = not c["force"]
+            lied.append(f)
+    combos = {(f["c"]["op"], f["c"]["dt"], f["observed"]) for f in lied}
+    if len(combos) < 12:
+        raise MachineryError("negative control: golden events lack forced / unforced zero-point placements (%s)" % sorted(combos))
+    # ---- an eliminated operator: accepted only for a no-op that need not stay on the CPU
+    ident = [e for e in decided if e["c"]["op"] == "RESIZE_BILINEAR" and e["c"]["s1"] == e["c"]["so"] and e["observed"] == "NPU"]
+    scaled = [e for e in decided if e["c"]["op"] == "RESIZE_BILINEAR" and e["c"]["s1"] != e["c"]["so"] and e["observed"] == "NPU"]
+    if not ident or not scaled:
+        raise MachineryError("negative control: golden events lack identity / scaling RESIZE_BILINEAR placements")
+    add(ident[0], None, observed="LOST")
+    add(scaled[0], "OperatorLost", observed="LOST")
+    # ---- a CPU placement that is not byte-identical; a memory-only operator swallowed by its NPU neighbour
+    kept = next(e for e in decided if e["observed"] == "CPU" and e["c"]["op"] == "RESHAPE")
+    add(kept, "CpuNotUnchanged", unchanged=False)
+    add(kept, "ViolatesButNpu", observed="NPU")
+    _, v = validate(d, corrupted)
+    if {(x[0], x[1]) for x in v} != want:
+        raise MachineryError("negative control: golden placements rejected or corrupted placements accepted: missing %s, "
+                             "unexpected %s" % (sorted(want - {(x[0], x[1]) for x in v})[:5],
+                                                sorted({(x[0], x[1]) for x in v} - want)[:5]))
+
+    # ---- a failed compilation of a case the wording leaves undecided: no verdict with the delivered constant (checked
+    #      above: the golden events contain such failures), a verdict with UndecidedFailureIsVerdict = TRUE
+    if not undecided_fail:
+        raise MachineryError("negative control: golden events lack an undecided case")
+    uf = [dict(copy.deepcopy(e), t=k) for k, e in enumerate(undecided_fail)]
+    _, vu1 = validate(d, uf, cfg="SupportedOpsTraceStrict.cfg")
+    if {(x[0], x[1]) for x in vu1} != {(e["t"], "UndecidedButFails") for e in uf}:
+        raise MachineryError("negative control: UndecidedFailureIsVerdict = TRUE does not make the failure a verdict (%s)" % vu1)
+    good = decided
+    by_t = {e["t"]: e for e in good}
+
+    def mutate(K, listed):
+        # (a) range constants / sets of the report off by one step
         K["DilHHi"] = {k: x + 1 for k, x in K["DilHHi"].items()}
         K["MpHHi"] -= 1
         K["DimHi"] -= 1
         K["PsHi"] += 1
         K["DwSHi"] -= 1
         K["MeanWMax"] += 1
-    d2, *_ = prepare_spec(run, md, mutate=shift)
-    _, v2 = validate(d2, good)
-    kinds = {x[1] for x in v2}
-    if not {"SatisfiesButCpu", "ViolatesButNpu"} <= kinds:
-        raise MachineryError("negative control: report constants shifted by one were not detected (%s)" % v2)
-
-    def unlist(K, listed):          # a constraint vanishes from the report but is still enforced
+        K["ArgMaxDepth"] += 1
+        K["RzFactors"] = [x for x in K["RzFactors"] if x != 8] + [16]
+        K["RzAlignFactors"] = [x for x in K["RzAlignFactors"] if x != 2] + [3]
+        K["PadRows"] = [x for x in K["PadRows"] if x != 3]
+        K["RzHalfFactor"] += 2
+        # (b) a constraint vanishes from the report but is still enforced
         listed["RESHAPE"] = [x for x in listed["RESHAPE"] if x != "rs_quant"]
-        listed["CONV_2D"] = [x for x in listed["CONV_2D"] if x != "batch"]
-    d3, *_ = prepare_spec(run, md, mutate=unlist)
-    _, v3 = validate(d3, good)
-    if not any(x[1] == "SatisfiesButCpu" for x in v3):
-        raise MachineryError("negative control: a constraint missing from the report was not detected (%s)" % v3)
-    run.cov["negative_controls"] = ["golden placements accepted (%d)" % len(good),
-                                    "flipped placement x%d, lost operator" % len(flipped),
-                                    "report constants shifted by one: %d inconsistencies" % len(v2),
-                                    "constraint removed from the report only: %d inconsistencies" % len(v3)]
+        listed["CONV_2D"] = [x for x in listed["CONV_2D"] if x not in ("batch", "wsym")]
+        listed["TRANSPOSE"] = [x for x in listed["TRANSPOSE"] if x != "tr_perm"]
+        listed["STRIDED_SLICE"] = [x for x in listed["STRIDED_SLICE"] if x != "ss_strides"]
+        listed["SOFTMAX"] = [x for x in listed["SOFTMAX"] if x != "sm_beta"]
+    d2, *_ = prepare_spec(run, md, mutate=mutate)
+    _, v2 = validate(d2, good)
+    hit = {(by_t[x[0]]["c"]["op"], by_t[x[0]]["c"]["axis"], x[1]) for x in v2}
+    shifted = {("CONV_2D", "kernel_h"), ("MAX_POOL_2D", "kernel_h"), ("CONV_2D", "dim_h"), ("MAX_POOL_2D", "stride_h"),
+               ("DEPTHWISE_CONV_2D", "stride_h"), ("MEAN", "mean_width"), ("ARG_MAX", "depth"), ("RESIZE_BILINEAR", "scale"),
+               ("RESIZE_NEAREST_NEIGHBOR", "scale"), ("RESIZE_BILINEAR", "half_pixel"), ("PAD", "padding")}
+    unlisted = {("RESHAPE", "quant_differs"), ("CONV_2D", "batch"), ("CONV_2D", "weights_zero_point"), ("TRANSPOSE", "permutation"),
+                ("STRIDED_SLICE", "strides"), ("SOFTMAX", "beta")}
+    miss_a = shifted - {(o, a) for o, a, k in hit}
+    miss_b = unlisted - {(o, a) for o, a, k in hit if k == "SatisfiesButCpu"}
+    if miss_a or miss_b or not {"SatisfiesButCpu", "ViolatesButNpu"} <= {k for o, a, k in hit}:
+        raise MachineryError("negative control: a report with shifted constants / dropped constraints was not detected for %s / %s"
+                             % (sorted(miss_a), sorted(miss_b)))
+    run.cov["negative_controls"] = ["golden placements accepted (%d, among them %d failed compilations of undecided cases)" % (
+                                        len(good) + len(uf), len(uf)),
+                                    "flipped placement x%d (every covered operator), lost operator, rewritten CPU operator, "
+                                    "absorbed memory-only operator" % len(flipped),
+                                    "wrong --force-symmetric-int-weights flag in the case record x%d: rejected" % len(lied),
+                                    "eliminated operator: identity resize accepted, scaling resize rejected",
+                                    "failed compilation of an undecided case x%d: verdict with UndecidedFailureIsVerdict = TRUE" % len(uf),
+                                    "report with constants shifted by one step and constraints dropped: %d inconsistencies, every "
+                                    "one of the %d mutated constraints detected" % (len(v2), len(shifted) + len(unlisted))]
 
 
 def main(tier, only=None):
+    from concurrent.futures import ThreadPoolExecutor
     run = Run("C16", tier)
+    # the negative controls use frozen inputs only (harness/golden) and TLC: they run beside the compilations
+    pool = ThreadPoolExecutor(1)
+    neg = pool.submit(negative_controls, run, tier)
     try:
-        return _main(run, tier)
+        return _main(run, tier, neg)
     except BaseException:
+        try:
+            neg.result()       # let the controls finish before their scratch directories go away
+        except BaseException:
+            pass
         run.cleanup()          # scratch directories must not outlive a machinery error
         raise
+    finally:
+        pool.shutdown(wait=True)
 
 
-def _main(run, tier):
+def _main(run, tier, neg):
     sd = seed()
     rng = random.Random(sd)
     try:
@@ -504,7 +759,7 @@ def _main(run, tier):
             raise
         run.violation("ReportGeneration|failed", "the working tree cannot generate its supported-operators report: %s"
                       % str(e)[-300:], {})
-        negative_controls(run)
+        neg.result()
         return run.finish()
     for op in sr.COVERED:
         if op not in parsed["table"]:
@@ -512,28 +767,58 @@ def _main(run, tier):
     check_lists(run, parsed)
     quick = tier == "quick"
     cases = cases_from_tlc(run, d, pairs=not quick)
+    off = {}
+    for c in cases:
+        name = switched_off(c)
+        if name:
+            off[name] = off.get(name, 0) + 1
+    cases = [c for c in cases if not switched_off(c)]
     single = [c for c in cases if not c["c"]["axis2"]]
     pairs = [c for c in cases if c["c"]["axis2"]]
     rng.shuffle(pairs)
+    first = [c for c in single if c["c"]["op"] in ROUND1]
+    later = [c for c in single if c["c"]["op"] not in ROUND1]
+    one_sided = ("npu_pre", "npu_post")
+    plan = []
     if quick:
-        jobs, meta, events, failed = run_cases(run, d, single, ["single"], lambda i: [ACCELS[i % 2]])
-        # every case again inside an NPU region, and a slice of them between CPU-only neighbours
-        extra = [r for k, r in enumerate(single) if k % 4 == sd % 4]
-        j2, m2, e2, f2 = run_cases(run, d, single, ["npu"], lambda i: [ACCELS[(i + 1) % 2]])
-        j3, m3, e3, f3 = run_cases(run, d, extra, ["sandwich"], lambda i: [ACCELS[i % 2]])
+        # options the report does not mention: a third of the (operator, option set) combinations per run, rotating with the seed
+        neutral = [c for c in single if c["c"]["axis"] == "neutral_option"]
+        first = [c for c in first if c["c"]["axis"] != "neutral_option"]
+        later = [c for c in later if c["c"]["axis"] != "neutral_option"]
+        plan += [(r, "single", ACCELS[i % 2]) for i, r in enumerate(neutral) if i % 3 == sd % 3]
+        # operators of the first round: every case alone and inside an NPU region, a slice of them between CPU-only neighbours
+        for i, r in enumerate(first):
+            plan.append((r, "single", ACCELS[i % 2]))
+            plan.append((r, "npu", ACCELS[(i + 1) % 2]))
+            if i % 4 == sd % 4:
+                plan.append((r, "sandwich", ACCELS[i % 2]))
+        # operators added later: every case alone, a third of them (rotating with the seed) inside an NPU region
+        for i, r in enumerate(later):
+            plan.append((r, "single", ACCELS[i % 2]))
+            if i % 3 == sd % 3:
+                plan.append((r, "npu", ACCELS[(i + 1) % 2]))
+        # data-movement operators that must stay on the CPU, next to an NPU operator on both sides / one side: a rejected
+        # memory-only operator must not be swallowed by the neighbouring NPU subgraph
+        k = 0
+        for r in single:
+            if r["c"]["op"] in MEMORY_ONLY and r["expect"] == "CPU":
+                k += 1
+                if r["c"]["op"] in ROUND1:
+                    plan += [(r, v, ACCELS[k % 2]) for v in one_sided]
+                else:
+                    plan.append((r, ("npu", "npu_pre", "npu_post")[(k + sd) % 3], ACCELS[k % 2]))
     else:
-        jobs, meta, events, failed = run_cases(run, d, single, ["single", "sandwich", "npu"], lambda i: ALL_ACCELS)
-        j2, m2, e2, f2 = run_cases(run, d, pairs[:4000], ["single"], lambda i: [ALL_ACCELS[i % 6], ALL_ACCELS[(i + 3) % 6]])
-        j3, m3, e3, f3 = run_cases(run, d, pairs[4000:5000], ["npu"], lambda i: [ALL_ACCELS[i % 6]])
-    for jb, mb, eb, fb in ((j2, m2, e2, f2), (j3, m3, e3, f3)):
-        for m in mb:
-            if "t" in m:
-                m["t"] += len(events)
-        for e in eb:
-            e["t"] += len(events)
-        jobs, meta, events = jobs + jb, meta + mb, events + eb
-        for k, v in fb.items():
-            failed.setdefault(k, []).extend(v)
+        for r in first:
+            plan += [(r, v, a) for v in ("single", "sandwich", "npu") for a in ALL_ACCELS]
+        for i, r in enumerate(later):
+            plan += [(r, v, a) for v in ("single", "npu") for a in ALL_ACCELS]
+            plan += [(r, v, ALL_ACCELS[(i + j) % 6]) for j, v in enumerate(("sandwich",) + one_sided)]
+        for i, r in enumerate(first):
+            if r["c"]["op"] in MEMORY_ONLY:
+                plan += [(r, v, ALL_ACCELS[(i + j) % 6]) for j, v in enumerate(one_sided)]
+        plan += [(r, "single", a) for i, r in enumerate(pairs[:4000]) for a in (ALL_ACCELS[i % 6], ALL_ACCELS[(i + 3) % 6])]
+        plan += [(r, "npu", ALL_ACCELS[i % 6]) for i, r in enumerate(pairs[4000:5000])]
+    jobs, meta, events, failed = run_cases(run, d, plan)
     nfail = sum(len(v) for v in failed.values())
     res, viol = validate(d, events)
     run.add_trace_run("SupportedOpsTrace", res, len(events))
@@ -552,22 +837,39 @@ def _main(run, tier):
             run.sample({"case": {k: v for k, v in x["rec"]["c"].items() if v not in ("", [], None)},
                         "expect": x["rec"]["expect"], "failing": x["rec"]["failing"], "observed": x["observed"],
                         "accel": x["accel"], "variant": x["variant"]})
-    negative_controls(run)
+    # ---- vacuity: the option dimension was really driven into the compiler for every operator that lists the bullet
+    forced = {(m["rec"]["c"]["op"], m["rec"]["c"]["dt"]) for m, j in zip(meta, jobs)
+              if m["rec"]["c"]["force"] and m["rec"]["c"]["wzp"] != 0 and "--force-symmetric-int-weights" in j["opts"]["extra"]}
+    need = {(op, dt) for op in sr.COVERED if op in parsed["table"] and "wsym" in listed[op] for dt in ("int8", "int16")}
+    if not need <= forced:
+        raise MachineryError("vacuity: no compilation with --force-symmetric-int-weights and a non-zero weight zero point for %s"
+                             % sorted(need - forced))
+    if not quick and {m["rec"]["c"]["nopt"] for m in meta} != set(NEUTRAL_OPTIONS):
+        raise MachineryError("vacuity: option sets not swept: %s" % sorted(set(NEUTRAL_OPTIONS) - {m["rec"]["c"]["nopt"] for m in meta}))
+    neg.result()               # a failed control raises MachineryError here
     run.cov["expectations"] = exp
     run.cov["constraint_kinds_exercised"] = sorted("%s:%s" % k for k in hit)
     run.cov["not_compiled"] = {k: v[:6] for k, v in failed.items()}
+    run.cov["switched_off_case_classes"] = off
+    run.cov["options_swept"] = sorted({" ".join(cli_extra(m["rec"]["c"])) for m in meta} - {""})
     run.cov["unmodelled_report_text"] = unmodelled
     run.cov["report_constants"] = {k: v for k, v in K.items() if not isinstance(v, dict)}
     run.cov["rule"] = ("cases = elements of Cases in SupportedOps.tla enumerated by TLC from the constants parsed out of the "
-                       "report the working tree generates; each case is compiled as a one-operator network (and with "
-                       "CPU-only neighbours) for ethos-u55-128 / ethos-u65-256; non-trivial = distinct "
+                       "report the working tree generates; the command-line option the report names "
+                       "(--force-symmetric-int-weights) is a field of the case and is passed to the compiler; each case is "
+                       "compiled as a one-operator network (and with CPU-only / NPU-able neighbours on both sides or one side) "
+                       "for ethos-u55-128 / ethos-u65-256 (all six configurations in the thorough tier); non-trivial = distinct "
                        "(operator, axis, failing constraints, variant, accelerator family) with an observed placement")
     run.assumptions += [
         "constraint kinds the generated networks always satisfy (attributes present, static shapes, finite scales, "
         "integer strides) are taken as holding",
         "'Tensors must be of type' / 'int32' / 'dimensions' are read as statements about IFM, IFM2, weights and OFM (not bias)",
         "wording that does not decide a case (stride width > 3 criteria, 40-bit bias magnitude, batch of tensors with "
-        "fewer than 4 dimensions, FC '2D output') gives Expect = ANY: no verdict",
+        "fewer than 4 dimensions, FC '2D output', negative CONCATENATION axis, identity TRANSPOSE, align_corners scaling of "
+        "an extent of 1, beta = 0, slice ranges where masks and raw values disagree) gives Expect = ANY: no verdict",
+        "parameter tensors (axis, begin / size / strides, permutation, paddings, resize size) are not 'Tensors' of the "
+        "generic type / int32 / dimension constraints",
+        "an operator whose result equals its input (RESIZE_* to the same size) may be eliminated instead of placed",
     ]
     return run.finish()
 
@@ -579,8 +881,9 @@ def replay(path):
         return 0
     r = vela_run.compile_many([{"id": 0, "net": rp["net"], "opts": rp["opts"]}])[0]
     if r["rc"] != 0 or not r.get("out_bytes"):
-        print("did not compile:", (r.get("exc") or r["stdout"])[-400:])
-        return 2
+        print("expected by the report: %s (failing %s); the compilation produces no output model: %s" % (
+            rp["case"]["expect"], rp["case"]["failing"], failure_signature(r)))
+        return 1 if rp["case"]["expect"] in ("NPU", "CPU") else 0
     obs, unchanged, diff = observe(rp["case"]["c"]["op"], r["in_bytes"], r["out_bytes"])
     print("expected by the report: %s (failing %s); observed: %s unchanged=%s; compiler says: %s" % (
         rp["case"]["expect"], rp["case"]["failing"], obs, unchanged, vela_reason(r["stdout"])))
